@@ -503,7 +503,7 @@ def cli(argv=None, mode='output'):
                 )
 
         # Generate the formula and apply transformations
-        if hasattr(args, 'seed') and args.seed:
+        if hasattr(args, 'seed') and args.seed is not None:
             random.seed(args.seed)
 
         try:
@@ -521,7 +521,7 @@ def cli(argv=None, mode='output'):
             except RuntimeError as e:
                 raise InternalBug(e) from e
 
-        if hasattr(args, 'seed') and args.seed:
+        if hasattr(args, 'seed') and args.seed is not None:
             cnf.header['random seed'] = args.seed
         cnf.header['command line'] = "cnfgen " + " ".join(argv[1:])
 
